@@ -519,10 +519,15 @@ pub fn run(cfg: &RunCfg) -> u8 {
             continue;
         }
         // replay in a fresh process: must reproduce exactly
-        let ok = std::env::current_exe()
+        // (under the Miri interpreter processes cannot be spawned: re-execute in this process instead)
+        let ok = if cfg!(miri) {
+            run_plan(&plan, false).violations.iter().any(|x| x.class == key.class)
+        } else {
+            std::env::current_exe()
             .ok()
             .and_then(|exe| std::process::Command::new(exe).arg("replay").arg(&path).arg("--inproc").arg("--quiet").output().ok())
-            .map_or(false, |o| o.status.code() == Some(1));
+            .map_or(false, |o| o.status.code() == Some(1))
+        };
         if !ok {
             harness_errors.push(format!("replay of {path} in a fresh process did not reproduce the violation"));
             continue;
